@@ -210,16 +210,26 @@ class SamplerRun:
         self.results.append(res)
         return res
 
-    def drive_manually(self, n_samples, **objective):
+    def drive_manually(self, n_samples, peek_after=(), **objective):
         """The documented manual way: set_objective + iterate() until finished +
-        extract_result() - without infer()'s final cancel_pending."""
+        extract_result() - without infer()'s final cancel_pending.  peek_after: iteration counts
+        after which an intermediate result is extracted and thrown away (looking at the result
+        so far and then carrying on, as the documentation's examples do)."""
         self.call_no += 1
         self.out.ev('S manual drive call %d' % self.call_no)
         s = self.sampler
         try:
             s.set_objective(n_samples, **objective)
+            it = 0
             while not s.finished:
                 s.iterate()
+                it += 1
+                if it in peek_after and not s.finished:
+                    try:
+                        s.extract_result()
+                        self.out.probes['intermediate_result_extracted'] += 1
+                    except ValueError:
+                        pass        # nothing consumed yet: 'Nothing to extract'
             res = s.extract_result()
         except StepCap:
             self.out.inconclusive = True
